@@ -355,6 +355,56 @@ def oracle(l, r, kind, n, via, tmp=None):
     return None
 
 
+XML_VARIANTS = [("use_replace", {"use_replace": True}), ("use_replace+text_tags", {"use_replace": True, "text_tags": "leaf"}),
+                ("text_tags", {"text_tags": "leaf"})]
+
+
+def leaf_only_tags(text):
+    """tags that occur only on elements without child nodes (safe to declare as text tags in a layered document:
+    no ignorable white space ever sits inside such an element)"""
+    root = parse_plain(text)
+    leaf, inner = set(), set()
+    for e in root.iter():
+        if isinstance(e.tag, str):
+            (inner if len(e) else leaf).add(e.tag)
+    return tuple(sorted(leaf - inner))
+
+
+def oracle_xml_variants(l, r, n, name, cfg):
+    """XMLFormatter(normalize=n, use_replace=True / text_tags=..): the run completes, and the output is markup-free
+    whenever n includes WS_TAGS or WS_TEXT"""
+    from xmldiff import main, formatting
+    kw = dict(cfg)
+    if kw.get("text_tags") == "leaf":
+        kw["text_tags"] = leaf_only_tags(l)
+        if not kw["text_tags"]:
+            return None
+    try:
+        res = main.diff_texts(l, r, formatter=formatting.XMLFormatter(normalize=n, **kw))
+    except Exception as ex:  # noqa
+        return "XMLFormatter(normalize=%s, %s) raised %r" % (n, ", ".join("%s=%r" % x for x in kw.items()), ex)
+    if n & 3 and not markup_free(res):
+        return "XMLFormatter(normalize=%s, %s): the output has diff markup: %r" % (n, ", ".join("%s=%r" % x for x in kw.items()), res[:200])
+    return None
+
+
+def oracle_cli_check(l, r, key, keep, tmp):
+    """--check on a document and its re-indentation: status 1 exactly with -w (and a real white space difference)"""
+    from harness import gen
+    a, b = os.path.join(tmp, 'l.xml'), os.path.join(tmp, 'r.xml')
+    open(a, 'w', encoding='utf8').write(l)
+    open(b, 'w', encoding='utf8').write(r)
+    out, st = run_cli(['--check'] + (['--keep-whitespace'] if keep else []) + ['--formatter', key, a, b])
+    differs = gen.canon(parse_plain(l)) != gen.canon(parse_plain(r))
+    want = 1 if (keep and differs) else None
+    if st != want:
+        return "--check%s --formatter %s on a re-indented document returned %r, expected %r (white space %s)" % (
+            " --keep-whitespace" if keep else "", key, st, want, "kept: the documents differ" if want else "ignored")
+    if key == 'xml' and (want is None) != markup_free(out):
+        return "--check --formatter xml: status %r but the printed document %s diff markup" % (st, "has no" if want else "has")
+    return None
+
+
 def oracle_actions(l, r):
     """with normalisation off, on parsed trees: text actions only, and patch_tree round-trips"""
     from xmldiff import main, actions
@@ -468,7 +518,7 @@ def main(run):
 
         # -- the oracle on the implementation --------------------------------------------
         combos = [(None, 'default')] + [(k, n) for k in ('DiffFormatter', 'XmlDiffFormatter', 'XMLFormatter') for n in NORMS]
-        nor, nfiles, ncli, nact = 0, 0, 0, 0
+        nor, nfiles, ncli, nact, nvar = 0, 0, 0, 0, 0
         for i, (l, r, s2) in enumerate(pairs):
             for kind, n in combos:
                 w = oracle(l, r, kind, n, 'texts')
@@ -490,6 +540,21 @@ def main(run):
                         if w:
                             viols.append({"what": "diff_command: " + w, "replay": {"kind": "oracle", "via": "cli", "left": l, "right": r,
                                                                                   "formatter": kind, "normalize": n}})
+            for n in (0, 1, 2, 3):
+                for name, cfg in XML_VARIANTS:
+                    w = oracle_xml_variants(l, r, n, name, cfg)
+                    nvar += 1
+                    if w:
+                        viols.append({"what": "diff_texts: " + w, "replay": {"kind": "xml-variant", "left": l, "right": r, "normalize": n,
+                                                                            "variant": name}})
+            if i % (4 if quick else 2) == 0:
+                for key in ('diff', 'xml', 'old'):
+                    for keep in (False, True):
+                        w = oracle_cli_check(l, r, key, keep, tmp)
+                        ncli += 1
+                        if w:
+                            viols.append({"what": "diff_command: " + w, "replay": {"kind": "cli-check", "left": l, "right": r, "key": key,
+                                                                                  "keep": keep}})
             w = oracle_actions(l, r)
             nact += 1
             if w:
@@ -501,8 +566,8 @@ def main(run):
     bad, log = ([], "")
     if pinfo.get("build_ok"):
         bad, log = lib.run_cases("C14", PRE, cases, chunk=600)
-    run.log("correspondence: %d cases %s, %d disagreements; oracle: %d diff_texts, %d diff_files, %d diff_command, %d tree-level; %d violations"
-            % (len(cases), kinds, len(bad), nor, nfiles, ncli, nact, len(viols)))
+    run.log("correspondence: %d cases %s, %d disagreements; oracle: %d diff_texts, %d XMLFormatter variants (use_replace/text_tags), %d diff_files, %d diff_command, %d tree-level; %d violations"
+            % (len(cases), kinds, len(bad), nor, nvar, nfiles, ncli, nact, len(viols)))
     for i in bad[:5]:
         run.log("  disagreement:", repr(descr[i])[:300])
     corr = [{"name": "lxml remove_blank_text / re-indentation / cleanup_whitespace().strip() / the XMLParser flag of main._diff "
@@ -531,14 +596,14 @@ def main(run):
         k = l.count('<') // 2
         sizes[k] = sizes.get(k, 0) + 1
     run.coverage.update({
-        "evaluations": len(cases) + nor + nfiles + ncli + nact,
+        "evaluations": len(cases) + nor + nvar + nfiles + ncli + nact,
         "distinct_nontrivial": len({p[0] + "\0" + p[1] for p in pairs if p[0] != p[1]}) + len(set(cases)),
         "rule": "seeded layered documents (depth <= 3, 1-4 children, comments, attributes, text from a list with blank/leading/trailing "
                 "white space), compact or indented with one scheme, re-indented with 2-3 of the schemes %s; every (formatter kind x "
                 "normalize) combination [16] per pair through diff_texts, a quarter through diff_files and diff_command (temp files); "
                 "blank-text rule additionally on seeded arbitrary mixed-content documents; non-trivial = the two texts differ" % (SCHEMES,),
         "input_distribution": {"cases": kinds, "markup-count/2 -> documents": dict(sorted(sizes.items())[:15])},
-        "oracle": {"diff_texts": nor, "diff_files": nfiles, "diff_command": ncli, "tree_level": nact},
+        "oracle": {"diff_texts": nor, "xml_formatter_variants": nvar, "diff_files": nfiles, "diff_command": ncli, "tree_level": nact},
         "samples": [{"left": p[0], "right": p[1]} for p in pairs[5:8]],
     })
     run.assumptions = [
@@ -562,6 +627,18 @@ def replay(run, path):
         try:
             n = d["normalize"]
             w = oracle(d["left"], d["right"], d["formatter"], n, d["via"], tmp)
+        finally:
+            shutil.rmtree(tmp, ignore_errors=True)
+        print(w or "property holds on this input")
+        return 1 if w else 0
+    if k == "xml-variant":
+        w = oracle_xml_variants(d["left"], d["right"], d["normalize"], d["variant"], dict(XML_VARIANTS)[d["variant"]])
+        print(w or "property holds on this input")
+        return 1 if w else 0
+    if k == "cli-check":
+        tmp = tempfile.mkdtemp(prefix="c14-")
+        try:
+            w = oracle_cli_check(d["left"], d["right"], d["key"], d["keep"], tmp)
         finally:
             shutil.rmtree(tmp, ignore_errors=True)
         print(w or "property holds on this input")
